@@ -175,12 +175,14 @@ C16 = Prop(
                 "Every mix-in comparison also overwrites a hashed copy of x member by member with y's members (through as_tuple()) and demands hash and operators of the value it now holds; the set family fills a second set through one reused scratch key; 40 (thorough: 200) pairs of unequal (int64, uint64, double) values whose combined hashes collide, solved from the combiner. Order clause (a statement about the family, \"up to rare collisions\"): of the pairs whose leaf hashes are a transposition of each other (two components exchanged) at most a quarter may collide.",
     harness=HARNESS, search=lambda dis, rng: gen_c16("thorough", rng),
     theorem_hint="NitroVerif.Props.C16.{eq_hash,ops_agree_with_lex,trichotomy,order_trans,six_consistent,combine_inj,"
-                 "tuple_last_injective,pair_second_injective,order_matters}",
+                 "tuple_last_injective,pair_second_injective,order_matters,model_combiner_is_source,source_combiner_injective_in_value}",
     level_text="Lean 4 theorems for all value trees: equal values hash equal (given std::hash is a function of the leaf "
                "value), the six operators agree with lexicographic comparison of the member tuple, trichotomy, "
                "transitivity, the 64-bit combiner is injective in the last component, a swap witness for order "
                "sensitivity. 'Rare collisions' is statistical: collisions over the grids are counted in the evidence, "
-               "not proved absent. Tied to the working tree by exact prediction of the 64-bit hash and the six operator "
+               "not proved absent. The combiner itself is regenerated from the header on every run (expression translator, "
+               "Generated/HashCombine.lean) and model_combiner_is_source re-proves that the model's arithmetic, seeds and pair "
+               "rule are the source's. Tied to the working tree also by exact prediction of the 64-bit hash and the six operator "
                "bits on exhaustive grids.",
     level_note="Trusted: Lean kernel; propext/Classical.choice/Quot.sound; std::hash of leaves is an input read off the "
                "implementation (its coherence with == is checked per case); std::tuple's operators and std::unordered_* "
@@ -191,6 +193,16 @@ C16 = Prop(
                  "NaN is excluded (no lawful order)"],
 )
 C16.model_input = model_input
+
+
+def c16_extract():
+    from . import extract
+    return extract.extract_hash_combine()
+
+
+C16.extract = c16_extract
+C16.extra_trusted = ["translator vlib/extract.py (clang 14 JSON AST of detail::hash_combine_impl<unsigned long>, hash(tuple), "
+                     "hash(pair), hash(variant) -> Generated/HashCombine.lean)"]
 
 
 def _collision_clause(cases, verdicts, feats):
